@@ -104,8 +104,26 @@ def rule_dfs(A: Analysis, rep):
     insts = [("load_transitive_closure", A.fn(TI + "load_transitive_closure")),
              # the traversal helper (nested function / private method, whatever its name) is inlined into its caller by sa/inline.py
              ("validate_all_loaded_tasks.do_traversal", A.fn(TI + "validate_all_loaded_tasks"))]
+    # DFS4: the validating traversals are iterative.  A traversal that recurses once per dependency level is bounded by
+    # the interpreter's recursion limit: a chain of ~1000 tasks ends in a RecursionError traceback instead of being
+    # accepted (or having its distant cycle / missing task reported).
+    rec = []
+    for f in A.prog.functions.values():     # nested helpers included (also those already inlined into their caller)
+        if not f.fq.startswith("conductor.parsing.task_index."):
+            continue
+        for callee in sorted(A.cg.edges.get(f.fq, ())):  # direct recursion, or mutual recursion inside the module
+            if callee == f.fq or (callee.startswith("conductor.parsing.task_index.") and f.fq in A.cg.reachable([callee])):
+                rec.append((f, callee))
+    for (f, callee) in rec:
+        rep.bad("DFS4", "iterative traversal (%s)" % f.fq.replace("conductor.", ""), f.node,
+                "`%s` calls itself%s: the depth of the dependency graph is bounded by the recursion limit (RecursionError on a long chain, "
+                "no cycle / missing-task diagnostic)" % (f.name, "" if callee == f.fq else " through %s" % callee.rsplit(".", 1)[1]))
+    if not rec:
+        rep.ok("DFS4", "iterative traversals", insts[0][1].node, "no function of parsing.task_index is recursive", deep=False)
     for name, fi in insts:
         wls = find_worklists(A, fi)
+        if len(wls) != 1 and any(f.fq.startswith(fi.fq) for f, _c in rec):
+            continue        # reported by DFS4: there is no worklist to examine
         if len(wls) != 1:
             raise AnalysisError("DFS1: worklist loop of %s not found" % name)
         w = wls[0]
